@@ -10,6 +10,7 @@ import (
 	"encoding/json"
 	"fmt"
 	"os"
+	"regexp"
 	"runtime"
 	"sort"
 	"strings"
@@ -83,6 +84,30 @@ type Task struct {
 	Trace  bool `json:"trace"`
 	// Instances: ask for the parameter instances of a tier instead of running
 	Instances string `json:"instances,omitempty"`
+	// Known: matchers of known findings applicable to this scenario instance;
+	// executions all of whose violations match are counted, not stored.
+	Known []Known `json:"known,omitempty"`
+}
+
+// Known is a structural matcher for a listed finding.
+type Known struct {
+	Idx   int    `json:"idx"`
+	Class string `json:"class"`
+	Msg   string `json:"msg"`
+	re    *regexp.Regexp
+}
+
+func (k *Known) match(v vs.Violation) bool {
+	if k.Class != "" && k.Class != v.Class {
+		return false
+	}
+	if k.Msg == "" {
+		return true
+	}
+	if k.re == nil {
+		k.re = regexp.MustCompile(k.Msg)
+	}
+	return k.re.MatchString(v.Msg)
 }
 
 // Child is a not-yet-explored node.
@@ -106,22 +131,24 @@ type Found struct {
 
 // Result is a worker's answer to a task.
 type Result struct {
-	ID        int            `json:"id"`
-	Execs     int            `json:"execs"`
-	Steps     int            `json:"steps"`
-	Redundant int            `json:"redundant"`
-	Diverged  int            `json:"diverged"`
-	DivMsg    string         `json:"divmsg,omitempty"`
-	Children  []Child        `json:"children,omitempty"`
-	Found     []Found        `json:"found,omitempty"`
-	Outcomes  map[string]int `json:"outcomes,omitempty"`
-	Sigs      []uint64       `json:"sigs,omitempty"`
-	Sample    *Found         `json:"sample,omitempty"`
-	Instances []Params       `json:"instances,omitempty"`
-	MaxDevs   int            `json:"maxdevs"`
-	Contended int            `json:"contended"` // executions with >=1 decision point having >=2 runnable goroutines
-	Recycle   bool           `json:"recycle,omitempty"`
-	Err       string         `json:"err,omitempty"`
+	ID          int            `json:"id"`
+	Execs       int            `json:"execs"`
+	Steps       int            `json:"steps"`
+	Redundant   int            `json:"redundant"`
+	Diverged    int            `json:"diverged"`
+	DivMsg      string         `json:"divmsg,omitempty"`
+	Children    []Child        `json:"children,omitempty"`
+	Found       []Found        `json:"found,omitempty"`
+	Outcomes    map[string]int `json:"outcomes,omitempty"`
+	Sigs        []uint64       `json:"sigs,omitempty"`
+	Sample      *Found         `json:"sample,omitempty"`
+	Instances   []Params       `json:"instances,omitempty"`
+	MaxDevs     int            `json:"maxdevs"`
+	Contended   int            `json:"contended"`           // executions with >=1 decision point having >=2 runnable goroutines
+	KnownHits   map[int]int    `json:"knownhits,omitempty"` // finding index -> violating executions fully explained by it
+	KnownSample map[int]*Found `json:"knownsample,omitempty"`
+	Recycle     bool           `json:"recycle,omitempty"`
+	Err         string         `json:"err,omitempty"`
 }
 
 type worker struct {
@@ -195,6 +222,24 @@ func (w *worker) node(s *Scenario, prefix []int, hash uint64, depth int, expand 
 	if x.Diverged != "" {
 		r.Diverged++
 		r.DivMsg = fmt.Sprintf("%s [%s %s prefix=%v]", x.Diverged, t.Scen, t.Params.Key(), prefix)
+		if r.Diverged == 1 {
+			// diagnose: trace the child and its parent in this worker and report the first difference
+			c := RunOne(s, t.Params, prefix, 0, true)
+			par := append([]int(nil), prefix...)
+			par[len(par)-1] = 0
+			pa := RunOne(s, t.Params, par, 0, true)
+			n := len(prefix)
+			fmt.Fprintf(os.Stderr, "DIVERGENCE %s\n", r.DivMsg)
+			for i := 0; i < n && i < len(c.Steps) && i < len(pa.Steps); i++ {
+				if c.Steps[i].H != pa.Steps[i].H || c.Steps[i].Alts != pa.Steps[i].Alts {
+					fmt.Fprintf(os.Stderr, " first difference child/parent at %d:\n  child : %s | %s\n   %s\n  parent: %s | %s\n   %s\n", i, c.Steps[i].Sig, c.Steps[i].Alts, c.Steps[i].H, pa.Steps[i].Sig, pa.Steps[i].Alts, pa.Steps[i].H)
+					break
+				}
+			}
+			if n-1 < len(pa.Steps) {
+				fmt.Fprintf(os.Stderr, " parent here at %d: %s | %s\n   %s (expected hash %x)\n", n-1, pa.Steps[n-1].Sig, pa.Steps[n-1].Alts, pa.Steps[n-1].H, hash)
+			}
+		}
 		return
 	}
 	if x.Redundant {
@@ -222,7 +267,19 @@ func (w *worker) node(s *Scenario, prefix []int, hash uint64, depth int, expand 
 		return Found{Scen: t.Scen, Params: t.Params, Choices: trim(x.Choices()), Viol: x.Violations(),
 			Steps: x.Steps, Obs: x.Observations(), Blocked: x.EndBlocked, Faults: x.Faulted, Devs: x.Devs}
 	}
-	if len(x.Violations()) > 0 {
+	if vv := x.Violations(); len(vv) > 0 && allKnown(t.Known, vv) >= 0 {
+		k := allKnown(t.Known, vv)
+		if r.KnownHits == nil {
+			r.KnownHits = map[int]int{}
+			r.KnownSample = map[int]*Found{}
+		}
+		r.KnownHits[k]++
+		if r.KnownSample[k] == nil {
+			f := mk()
+			f.Steps = nil
+			r.KnownSample[k] = &f
+		}
+	} else if len(vv) > 0 {
 		if len(r.Found) < w.maxFound {
 			f := mk()
 			if !t.Trace {
@@ -257,6 +314,28 @@ func (w *worker) node(s *Scenario, prefix []int, hash uint64, depth int, expand 
 			}
 		}
 	}
+}
+
+// allKnown returns the index of a known finding when every violation of the
+// execution is matched by listed findings (the index of the first one), else -1.
+func allKnown(ks []Known, vv []vs.Violation) int {
+	first := -1
+	for _, v := range vv {
+		ok := false
+		for i := range ks {
+			if ks[i].match(v) {
+				ok = true
+				if first < 0 {
+					first = ks[i].Idx
+				}
+				break
+			}
+		}
+		if !ok {
+			return -1
+		}
+	}
+	return first
 }
 
 func trim(c []int) []int {
